@@ -59,7 +59,7 @@ def schemas_():
                 {'A.X': [ABSENT, 0.0, 1.5], 'B.AX': [ABSENT, 0.0, 1.5, 2.5]}, (2, 2)))
     out.append((S('shared_referential', [('A', [('Id', 'UNIQUE_ID')]), ('C', [('Id', 'UNIQUE_ID')]), ('B', [('Bid', 'INTEGER'), ('X', 'UNIQUE_ID')])],
                   [Assoc(1, 'B', ['X'], True, True, '', 'A', ['Id'], False, True, ''), Assoc(2, 'B', ['X'], True, True, '', 'C', ['Id'], False, True, '')]),
-                {'A.Id': [0, 5, 7], 'C.Id': [5, 8], 'B.X': [ABSENT, 0, 5, 7, 8]}, (2, 1, 2)))
+                {'A.Id': [0, 5, 7], 'C.Id': [5, 8], 'B.X': [ABSENT, 0, 5, 7, 8]}, (1, 1, 2)))
     out.append((S('reflexive', [('A', [('Id', 'UNIQUE_ID'), ('Next_Id', 'UNIQUE_ID')])],
                   [Assoc(2, 'A', ['Next_Id'], False, True, 'prev', 'A', ['Id'], False, True, 'next')]),
                 {'A.Id': [0, 5, 7], 'A.Next_Id': [ABSENT, 0, 5, 7, 9]}, (3,)))
@@ -89,12 +89,12 @@ def schemas_():
     # one referential attribute formalising two associations to the SAME class through two different identifiers
     out.append((S('shared_name_two_identifiers', [('A', [('Id', 'UNIQUE_ID'), ('Alt', 'UNIQUE_ID')]), ('B', [('Bid', 'INTEGER'), ('Ref', 'UNIQUE_ID')])],
                   [Assoc(1, 'B', ['Ref'], True, True, '', 'A', ['Id'], False, True, ''), Assoc(2, 'B', ['Ref'], True, True, '', 'A', ['Alt'], False, True, '')]),
-                {'A.Id': [5, 7], 'A.Alt': [5, 7, 8], 'B.Ref': [ABSENT, 0, 5, 7, 8]}, (2, 2)))
+                {'A.Id': [5, 7], 'A.Alt': [5, 7, 8], 'B.Ref': [ABSENT, 0, 5, 8]}, (2, 2)))
     # two classes whose referential attributes carry the same name and refer to the same class through different identifiers
     out.append((S('same_name_two_classes', [('A', [('Id', 'UNIQUE_ID'), ('Alt', 'UNIQUE_ID')]), ('B', [('Bid', 'INTEGER'), ('Ref', 'UNIQUE_ID')]),
                                             ('C', [('Cid', 'INTEGER'), ('Ref', 'UNIQUE_ID')])],
                   [Assoc(1, 'B', ['Ref'], True, True, '', 'A', ['Id'], False, True, ''), Assoc(2, 'C', ['Ref'], True, True, '', 'A', ['Alt'], False, True, '')]),
-                {'A.Id': [5, 7], 'A.Alt': [5, 7], 'B.Ref': [ABSENT, 5, 7, 8], 'C.Ref': [0, 5, 7]}, (2, 1, 2)))
+                {'A.Id': [5, 7], 'A.Alt': [5, 7], 'B.Ref': [ABSENT, 5, 7, 8], 'C.Ref': [0, 5, 7]}, (2, 1, 1)))
     # the same with two-attribute keys listed in crossed orders: equal sets of referring names, different identifiers
     out.append((S('same_names_two_attr_identifiers', [('A', [('P', 'INTEGER'), ('Q', 'INTEGER'), ('U', 'INTEGER')]),
                                                       ('B', [('Bid', 'INTEGER'), ('X', 'INTEGER'), ('Y', 'INTEGER')]),
@@ -108,7 +108,7 @@ def schemas_():
                                                ('D', [('Did', 'INTEGER'), ('B_X', 'UNIQUE_ID')])],
                   [Assoc(1, 'B', ['X'], True, True, '', 'A', ['Id'], False, True, ''), Assoc(2, 'B', ['X'], True, True, '', 'C', ['Id'], False, True, ''),
                    Assoc(3, 'D', ['B_X'], True, True, '', 'B', ['X'], False, True, '')]),
-                {'A.Id': [5, 7], 'C.Id': [5, 8], 'B.X': [0, 5, 7, 8, 9], 'D.B_X': [ABSENT, 0, 5, 7, 8, 9]}, (1, 1, 2, 1)))
+                {'A.Id': [5, 7], 'C.Id': [5, 8], 'B.X': [5, 7, 8, 9], 'D.B_X': [ABSENT, 0, 5, 7, 8, 9]}, (1, 1, 2, 1)))
     for schema, _, caps in out:
         assert len(caps) == len(schema.classes), schema.name
     return out
@@ -564,7 +564,9 @@ def run(ctx):
             tasks.append((si, ctx.tier, c))
             api_tasks.append((si, ctx.tier, c))
     ctx.pmap(join_task, tasks, fresh=True)
+    print('  join: populations=%d t=%.0fs' % (ctx.n('populations'), ctx.elapsed()), flush=True)
     ctx.pmap(api_task, api_tasks, fresh=True)
+    print('  api: cases=%d t=%.0fs' % (ctx.n('api_cases'), ctx.elapsed()), flush=True)
     # cross-model family: each task in a process of its own
     ctasks = []
     for si, sj in cross_pairs():
@@ -575,10 +577,12 @@ def run(ctx):
             ctasks.append((si, sj, ctx.tier, pre, c))
     ctx.count('cross_pairs', len(cross_pairs()))
     ctx.pmap(cross_task, ctasks, fresh=True)
+    print('  cross-model: loads=%d t=%.0fs' % (ctx.n('cross_loads'), ctx.elapsed()), flush=True)
     ctx.require(ctx.n('cross_loads') >= 2000, 'too few loads in the cross-model family (%d)' % ctx.n('cross_loads'))
     small = small_inputs(ctx.tier)
     ctx.count('small_inputs', len(small))
     ctx.pmap(order_task, [(si, rows, ctx.tier) for si, rows in small], fresh=True)
+    print('  order: inputs=%d t=%.0fs' % (len(small), ctx.elapsed()), flush=True)
     ctx.pmap(files_task, [(si, rows, ctx.tier) for si, rows in small[:: (4 if ctx.quick else 2)] if len(statements(schemas_()[si][0], rows)) <= 6])
     sch, al, cp = schemas_()[2]
     ctx.sample(dict(schema=sch.name, input='\n'.join(statements(sch, next(iter(populations(sch, al, cp, 'quick'))), 0))))
